@@ -69,27 +69,89 @@ def warmup(tier: str) -> None:
     ALG, OPS, BASE, _TL = alg, ops, base, TL
     PSI, CLMO, ENC = base._PSI_GLOBAL, base._CLMO_GLOBAL, base._ENCODE_DICT_GLOBAL
     SIM = PrangeSim([alg, ops])
-    # JIT warm-up of everything the runs call (children inherit the compiled code)
+    # JIT warm-up of everything the runs call (children inherit the compiled code). A sacrificial interpreter makes the same calls
+    # first: a compiled function that launches a parallel region from inside another one aborts the whole process under the
+    # workqueue threading layer, and that must become a reported violation, not the death of the check.
     import numba
     numba.set_num_threads(1)
-    for cplx in (False, True):
-        dt = np.complex128 if cplx else np.float64
-        p = np.ones(6, dtype=dt)
-        out = np.zeros(6, dtype=dt)
-        alg._poly_add(p, p, out); alg._poly_scale(p, 2.0, out)
-        alg._poly_mul(p, 1, p, 1, PSI, CLMO, ENC); alg._poly_diff(p, 0, 1, PSI, CLMO, ENC)
-        alg._poly_poisson(p, 1, p, 1, PSI, CLMO, ENC); alg._poly_integrate(p, 0, 1, PSI, CLMO, ENC)
-        alg._poly_evaluate(p, 1, np.ones(6, dtype=np.complex128), CLMO)
-    P = ops._polynomial_zero_list(2, PSI)
-    P[1][0] = 1.0
-    ops._polynomial_multiply(P, P, 2, PSI, CLMO, ENC); ops._polynomial_power(P, 2, 2, PSI, CLMO, ENC)
-    ops._polynomial_poisson_bracket(P, P, 2, PSI, CLMO, ENC)
-    ops._polynomial_differentiate(P, 0, 2, PSI, CLMO, PSI, CLMO, ENC); ops._polynomial_jacobian(P, 2, PSI, CLMO, ENC)
-    ops._polynomial_integrate(P, 0, 2, PSI, CLMO, PSI, CLMO, ENC)
-    ops._polynomial_evaluate(P, np.ones(6, dtype=np.complex128), CLMO)
-    ops._polynomial_add_inplace(P, P, 2.0, 2)
-    C = np.eye(6)
-    ops._substitute_linear(P, C, 2, PSI, CLMO, ENC); ops._substitute_affine(P, C, np.zeros(6), 2, PSI, CLMO, ENC)
+    ABORTING.clear()
+    ABORTING.update(_find_aborting())
+    for name, thunk in _warm_calls(alg, ops):
+        if name not in ABORTING:
+            thunk()
+
+
+ABORTING: set = set()
+
+
+def _warm_calls(alg, ops):
+    calls = []
+
+    def both(name, f):
+        def run():
+            for cplx in (False, True):
+                dt = np.complex128 if cplx else np.float64
+                f(np.ones(6, dtype=dt), np.zeros(6, dtype=dt))
+        calls.append((name, run))
+    both("_poly_add", lambda p, out: alg._poly_add(p, p, out))
+    both("_poly_scale", lambda p, out: alg._poly_scale(p, 2.0, out))
+    both("_poly_mul", lambda p, out: alg._poly_mul(p, 1, p, 1, PSI, CLMO, ENC))
+    both("_poly_diff", lambda p, out: alg._poly_diff(p, 0, 1, PSI, CLMO, ENC))
+    both("_poly_poisson", lambda p, out: alg._poly_poisson(p, 1, p, 1, PSI, CLMO, ENC))
+    both("_poly_integrate", lambda p, out: alg._poly_integrate(p, 0, 1, PSI, CLMO, ENC))
+    both("_poly_evaluate", lambda p, out: alg._poly_evaluate(p, 1, np.ones(6, dtype=np.complex128), CLMO))
+
+    def mk():
+        P = ops._polynomial_zero_list(2, PSI)
+        P[1][0] = 1.0
+        return P
+    calls.append(("_polynomial_multiply", lambda: ops._polynomial_multiply(mk(), mk(), 2, PSI, CLMO, ENC)))
+    calls.append(("_polynomial_power", lambda: ops._polynomial_power(mk(), 2, 2, PSI, CLMO, ENC)))
+    calls.append(("_polynomial_poisson_bracket", lambda: ops._polynomial_poisson_bracket(mk(), mk(), 2, PSI, CLMO, ENC)))
+    calls.append(("_polynomial_differentiate", lambda: ops._polynomial_differentiate(mk(), 0, 2, PSI, CLMO, PSI, CLMO, ENC)))
+    calls.append(("_polynomial_jacobian", lambda: ops._polynomial_jacobian(mk(), 2, PSI, CLMO, ENC)))
+    calls.append(("_polynomial_integrate", lambda: ops._polynomial_integrate(mk(), 0, 2, PSI, CLMO, PSI, CLMO, ENC)))
+    calls.append(("_polynomial_evaluate", lambda: ops._polynomial_evaluate(mk(), np.ones(6, dtype=np.complex128), CLMO)))
+    calls.append(("_polynomial_add_inplace", lambda: ops._polynomial_add_inplace(mk(), mk(), 2.0, 2)))
+    calls.append(("_substitute_linear", lambda: ops._substitute_linear(mk(), np.eye(6), 2, PSI, CLMO, ENC)))
+    calls.append(("_substitute_affine", lambda: ops._substitute_affine(mk(), np.eye(6), np.zeros(6), 2, PSI, CLMO, ENC)))
+    return calls
+
+
+def _canary_main():
+    """Runs in the sacrificial interpreter: the warm-up calls one by one, with markers."""
+    global PSI, CLMO, ENC
+    import hiten.algorithms.polynomial.algebra as alg
+    import hiten.algorithms.polynomial.operations as ops
+    import hiten.algorithms.polynomial.base as base
+    import numba
+    numba.set_num_threads(2)
+    PSI, CLMO, ENC = base._PSI_GLOBAL, base._CLMO_GLOBAL, base._ENCODE_DICT_GLOBAL
+    skip = set(filter(None, os.environ.get("VERIF_C06_SKIP", "").split(",")))
+    for name, thunk in _warm_calls(alg, ops):
+        if name in skip:
+            continue
+        print(f"CANARY-BEGIN {name}", flush=True)
+        thunk()
+        print(f"CANARY-OK {name}", flush=True)
+
+
+def _find_aborting() -> set:
+    here = Path(__file__).resolve().parent.parent
+    found: set = set()
+    for _ in range(8):
+        env = dict(os.environ, VERIF_C06_SKIP=",".join(sorted(found)), NUMBA_THREADING_LAYER="workqueue")
+        p = subprocess.run([sys.executable, "-c", "import sys; sys.path.insert(0, %r); from checks import c06; c06._canary_main()" % str(here)],
+                           cwd=str(here), env=env, capture_output=True, text=True, timeout=900)
+        if p.returncode == 0:
+            return found
+        begun = [l.split()[1] for l in p.stdout.splitlines() if l.startswith("CANARY-BEGIN ")]
+        done = {l.split()[1] for l in p.stdout.splitlines() if l.startswith("CANARY-OK ")}
+        last = [b for b in begun if b not in done]
+        if not last or "threading layer is terminating" not in (p.stderr + p.stdout):
+            raise RuntimeError(f"C06 canary interpreter died (rc={p.returncode}) for another reason than a nested parallel region: {p.stderr[-1500:]}")
+        found.add(last[-1])
+    return found
 
 
 # --------------------------------------------------------------------------- slot <-> exponent through the library tables
@@ -662,7 +724,8 @@ def execute(ctx: RunCtx) -> None:
         log.add("prior", prior.desc)
         ctx.probe("prior_call")
         try:
-            prior.check(prior.run(_compiled), f"C06/value-{prior.op}", f"compiled {prior.entry()} on {prior.desc}")
+            if prior.entry() not in ABORTING:
+                prior.check(prior.run(_compiled), f"C06/value-{prior.op}", f"compiled {prior.entry()} on {prior.desc}")
             if SIM.has(_compiled(prior.entry())) and prior.sim_cost() <= SIM_MAX_PAIR:
                 SIM.begin_run(ds, ds.pick(NTS, "prior.nT"), "static", "serial", 1)
                 prior.run(_simulated)
@@ -674,15 +737,18 @@ def execute(ctx: RunCtx) -> None:
     ind = case.digest_inputs()
     log.add("case", case.desc, ind)
     ctx.sample = {"case": case.desc}
-    # 1. the compiled function against the exact model
-    try:
-        got_c = case.run(_compiled)
-    except Violation:
-        raise
-    except Exception as e:
-        raise Violation(f"C06/value-{case.op}-raised", f"compiled {case.entry()} raised {type(e).__name__}: {e}")
-    case.check(got_c, f"C06/value-{case.op}", f"compiled {case.entry()} on {case.desc}")
-    ctx.steps += 1
+    # 1. the compiled function against the exact model (not when calling it aborts the process: reported by the canary leg)
+    if case.entry() in ABORTING:
+        ctx.probe("compiled_call_would_abort_skipped")
+    else:
+        try:
+            got_c = case.run(_compiled)
+        except Violation:
+            raise
+        except Exception as e:
+            raise Violation(f"C06/value-{case.op}-raised", f"compiled {case.entry()} raised {type(e).__name__}: {e}")
+        case.check(got_c, f"C06/value-{case.op}", f"compiled {case.entry()} on {case.desc}")
+        ctx.steps += 1
     # 2. the same operation from source under a simulated schedule
     entry = _compiled(case.entry())
     if not SIM.has(entry):
@@ -824,6 +890,20 @@ def layout_sweep(max_degree: int = 30) -> dict:
 _REALBIN: list = []
 
 
+def _abort_message() -> str:
+    return (f"calling {sorted(ABORTING)} aborts the interpreter under numba's workqueue threading layer (\"Concurrent access has been detected\"): "
+            f"a parallel kernel launches another parallel region from inside its prange loop, so under that layer -- the one numba falls "
+            f"back to when neither TBB nor OpenMP is available -- no result is returned for any thread count")
+
+
+def _execute_canary(ctx: RunCtx) -> None:
+    if ABORTING:   # determined by warmup() in this very process, through the sacrificial interpreter
+        raise Violation("C06/abort-nested-parallel-region", _abort_message())
+
+
+LEGS["canary"] = _execute_canary
+
+
 def pre_phases(report, cfg, procs):
     # start the real-binary legs first: they run in fresh interpreters while the simulation runs
     here = Path(__file__).resolve().parent.parent
@@ -858,6 +938,13 @@ LEGS["layout"] = _execute_layout
 
 def post_phases(report, cfg, procs):
     out = {}
+    # reported after the simulated search (which runs the affected functions from source and may already have found a race in them)
+    if ABORTING:
+        from simkit.run import RunResult
+        r = RunResult(verdict="violation", vclass="C06/abort-nested-parallel-region", message=_abort_message())
+        payload = {"values": [], "decisions": [], "events": [], "vclass": r.vclass, "message": r.message, "digest": None,
+                   "minimise": {"tests": 0}, "original_len": 0, "sample": {"phase": "canary", "aborting": sorted(ABORTING)}}
+        report.violations.append((("values", "canary", "canary"), r, payload))
     for layer, p in _REALBIN:
         try:
             so, se = p.communicate(timeout=1500)
@@ -867,6 +954,9 @@ def post_phases(report, cfg, procs):
             continue
         line = [l for l in so.splitlines() if l.startswith("REALBIN ")]
         if p.returncode not in (0, 1) or not line:
+            if layer == "workqueue" and ABORTING and "threading layer is terminating" in se:
+                out[layer] = {"aborted": "nested parallel region, reported by the canary leg"}
+                continue
             report.harness_errors.append(("realbin-crashed", f"{layer}: rc={p.returncode} {se[-1500:]}"))
             continue
         doc = json.loads(line[-1][len("REALBIN "):])
